@@ -8,7 +8,7 @@ INPUT_OPTS = [("S", "live"), ("S", "zero"), ("S", "inact"),
               ("SL", "live"), ("SL", "starved")]  # own source + LinReg; 'starved': the source is below the drop-out voltage, the regulator outputs 0 V without being "off"
 
 
-def mux_spec(inputs, pal=0, rs_list=False, rails=False, by_rail=False, below="std", own_loads=True, pol=1, order=None, mux_pc=None):
+def mux_spec(inputs, pal=0, rs_list=False, rails=False, by_rail=False, below="std", own_loads=True, pol=1, order=None, mux_pc=None, ig_table=False):
     """inputs: list of (type, status).  Phases PH2: 'inact*' elements are active in phase a only."""
     L = letters(pal)
     V = PALETTES[pal]["V"] * pol
@@ -54,6 +54,10 @@ def mux_spec(inputs, pal=0, rs_list=False, rails=False, by_rail=False, below="st
     a = copy.deepcopy(args)
     if rs_list:
         a["rs"] = [_r(args["rs"] * (1 + 0.5 * j)) for j in range(k)]
+    if ig_table:  # planar 2-D ground-current table: the lookup must use the SELECTED input's voltage
+        Vp = PALETTES[pal]["V"]
+        io_ax, vi_ax = [0.0, 0.05, 0.5], [_r(0.4 * Vp), _r(1.6 * Vp)]
+        a["ig"] = {"vi": vi_ax, "io": io_ax, "ig": [[_r(1e-4 + 2e-3 * x / 0.5 + 1e-3 * y / Vp) for x in io_ax] for y in vi_ax]}
     recs = {c["n"]: c for c in comps}
     pdes = [recs[e]["r"] if (by_rail and recs[e]["r"]) else e for e in ends]
     if order:  # priority order different from creation order
